@@ -133,7 +133,7 @@ impl Check for C05 {
         ]
     }
     fn budget(t: Tier) -> usize {
-        t.pick(1500, 30_000)
+        t.pick(4000, 80_000)
     }
     fn gen(s: &mut Src, _t: Tier) -> Case {
         let foreign = s.chance(1, 2);
